@@ -141,7 +141,26 @@ impl Driver for C17 {
             ..Default::default()
         };
         for case in 0..250 {
-            let spec = gen_lm(&mut rng, &opts);
+            let mut spec = gen_lm(&mut rng, &opts);
+            // every fifth case: a model compiled by the Linearizer from a source whose variables are
+            // declared out of alphabetical order (the column list is sorted, the domain is not)
+            let compiled: Option<LinearModel> = if case % 5 == 4 {
+                use rand::seq::SliceRandom;
+                use rand::Rng;
+                let stratum = crate::gen_model::STRATA[rng.gen_range(0..crate::gen_model::STRATA.len())];
+                let mut m = crate::gen_model::gen_model(&mut rng, stratum);
+                let mut names = ["zeta", "alpha", "mid", "beta", "omega", "x"].to_vec();
+                names.shuffle(&mut rng);
+                for (i, n) in m.names.iter_mut().enumerate() {
+                    *n = names[i].to_string();
+                }
+                match crate::compile::compile_m(&m) {
+                    crate::compile::Compiled::Ok(lm) => Some(lm),
+                    _ => None,
+                }
+            } else {
+                None
+            };
             if let Some(o) = only {
                 if o != case {
                     continue;
@@ -149,7 +168,17 @@ impl Driver for C17 {
             }
             out.case = case;
             out.eval();
-            let lm = spec.to_rooc();
+            if let Some(lm) = &compiled {
+                spec = LmSpec::from_rooc(lm);
+                out.tag("from-linearizer");
+                if lm.variables().iter().zip(lm.domain().keys()).any(|(a, b)| a != b) {
+                    out.tag("from-linearizer:column-order-differs-from-domain-order");
+                }
+            }
+            let lm = match compiled {
+                Some(lm) => lm,
+                None => spec.to_rooc(),
+            };
             let nontrivial = !spec.rows.is_empty();
             if nontrivial {
                 out.nontrivial(spec.shape_hash());
@@ -193,7 +222,7 @@ impl Driver for C17 {
         }
     }
     fn rule(&self) -> String {
-        "random LinearModels built through the public API (<=6 variables, <=6 rows; coefficients from small integers, halves, 1e-9..1e9; Boolean/IntegerRange/Real/NonNegativeReal with finite, half-infinite and infinite bounds; named/unnamed rows; offsets; min/max/satisfy); each is exported with to_lp_format() and read back by an independent LP-format reader; every number is compared exactly. distinct = structural hash of the model; non-trivial = at least one row".into()
+        "random LinearModels built through the public API, and - every fifth case - linear models compiled by the Linearizer from G-model sources whose variables are declared out of alphabetical order (<=6 variables, <=6 rows; coefficients from small integers, halves, 1e-9..1e9; Boolean/IntegerRange/Real/NonNegativeReal with finite, half-infinite and infinite bounds; named/unnamed rows; offsets; min/max/satisfy); each is exported with to_lp_format() and read back by an independent LP-format reader; every number is compared exactly. distinct = structural hash of the model; non-trivial = at least one row".into()
     }
     fn thresholds(&self, _tier: Tier) -> Thresholds {
         Thresholds {
@@ -206,6 +235,7 @@ impl Driver for C17 {
                 ("binary", 10000),
                 ("general-integer", 10000),
                 ("satisfy", 5000),
+                ("from-linearizer:column-order-differs-from-domain-order", 5000),
             ],
             min_nontrivial: 100000,
         }
